@@ -110,6 +110,9 @@ def run(tier, seed):
     for cfg in cfgs:
         run_config(rep, cfg, tier, tasks)
     from checks import c01f
+    # the 4-lane AVX2 vector field (simd build): checks/c01v.py
+    from checks import c01v
+    tasks += c01v.harnesses(rep, build.ir("simd", "O3"), tier)
     fcfgs = ["serial64", "serial32"] if tier == "quick" else cfgs
     build.ir_many([dict(config=c, flavour="O0") for c in fcfgs])
     for cfg in fcfgs: tasks += c01f.harnesses(rep, cfg, build.ir(cfg, "O0"))
